@@ -170,6 +170,13 @@ def run(ctx):
     for ci in range(12 if ctx.thorough else 4):
         pos = [p for p in gi.core_positions(2) if rng.random() < 0.8] or [(1, 1)]
         case = gi.random_case(rng, positions=pos, n_types=2, gap_model='flow', length=0.1)
+        if ci % 2 == 0:
+            # alternating types round the centre: the two hex sides meeting in the top corner see different neighbours
+            pos = gi.core_positions(2)
+            case = gi.random_case(rng, positions=pos, n_types=2, gap_model='flow', length=0.1)
+            names_ = list(case['types'])
+            for k_, a_ in enumerate(case['assignment']):
+                a_['type'] = names_[0] if (k_ == 0 or k_ % 2 == 0) else names_[1]
         for tn in list(case['types']):
             if rng.random() < 0.5:
                 gi.add_axial_regions(rng, case, tn)
@@ -180,9 +187,23 @@ def run(ctx):
         except SystemExit:
             continue
         for a_i, a in enumerate(r.assemblies):
+            # the perimeter weights the core turns gap-mesh fluxes into heat with ARE the cell lengths of the gap mesh the maps
+            # were built on (top corner = its two halves, whatever the neighbours on the first and the last hex side are)
+            xc = r.core._asm_sc_xbnds[a_i]
+            xcp = processed_gap(a.region[0].calculate_xbnds(), xc)
+            dc = xcp[1:] - xcp[:-1]
+            wc = np.append(dc[1:-1], dc[-1] + dc[0])
+            wp = np.asarray(r.core.gap_params['asm wp'][a_i], dtype=float)[:wc.shape[0]]
+            ctx.count("reactor_gap_weights")
+            if wp.shape != wc.shape or np.abs(wp - wc).max() > 1e-12 * wc.max():
+                k_ = int(np.argmax(np.abs(wp - wc))) if wp.shape == wc.shape else -1
+                ctx.violation("c10-reactor-gap-weights", "assembly %d: the core weights gap cell %d with %.9g m of perimeter, the gap mesh "
+                              "its duct/gap maps were built on gives it %.9g m: a flux mapped from the duct to the gap no longer carries "
+                              "the same heat" % (a_i, k_, wp[k_] if k_ >= 0 else float('nan'), wc[k_] if k_ >= 0 else float('nan')),
+                              case=case, asm=a_i)
+                break
             for reg in a.region:
                 xr = reg.calculate_xbnds()
-                xc = r.core._asm_sc_xbnds[a_i]
                 ctx.evals += 1
                 why = check_matrix_properties(ctx, reg._map['gap2duct'], reg._map['duct2gap'], xr, xc, {})
                 if why:
